@@ -46,6 +46,33 @@ def run(tier, seed):
     ok = bool(rs) and len(engines) >= 1 and all(F.dominates(rs[0], g) for g in gens)
     rep.add('SHOOT.reset-first', 'shoot', where(sh, rs[0].line if rs else sh['l']),
             'event_.reset() precedes the %d generator/operation calls of shoot()' % len(gens), ok)
+    # ... and it is the *same object* that is reset and then filled: an engine appends to the event it is given, so an event that
+    # lives longer than one shot (a member used as a work area, a cached event) and is not cleared on every entry carries the
+    # particles of an earlier - possibly failed - shot into this one
+    rep.rule('SHOOT.same-event', 'every event handed to an engine or to a post-generation operation in shoot() is the object whose '
+             'reset() dominates that call (references are resolved to their referent): nothing is appended to an event that may '
+             'still hold particles of an earlier shot')
+    pos = {'genbbsub': 1, 'dbd_gA::shoot': 2}
+    nse = 0
+    for g in gens:
+        nm = g.stmt[1]
+        i = pos.get(nm, 2 if (nm.endswith('operator()') or nm.startswith('indirect')) else None)
+        args = g.stmt[2] if isinstance(g.stmt[2], (list, tuple)) else ()
+        if i is None or i >= len(args):
+            continue
+        tgt = ir.fmt(args[i])
+        doms = [r for r in rs if r.stmt[2] and ir.fmt(r.stmt[2][0]) == tgt and F.dominates(r, g)]
+        fresh = [v for d in astu.walk(sh['body']) if d['k'] == 'Decl' for v in d['vars']
+                 if v['name'] == tgt and v['ty'].replace('bxdecay0::', '').strip() == 'event' and not v.get('static')]
+        if not doms and fresh:
+            doms = fresh            # a by-value local event of shoot() is default-constructed (empty) on every entry
+        nse += 1
+        rep.add('SHOOT.same-event', 'shoot:%s:%s' % (nm, tgt), where(sh, g.line),
+                '`%s(... %s ...)` fills the event that was reset on entry' % (nm, tgt), bool(doms),
+                None if doms else ['no `%s.reset()` dominates this call (reset receivers in shoot(): %s): whatever `%s` held before '
+                                   'this shot - e.g. the particles of a shot that threw before handing them over - is still in it'
+                                   % (tgt, sorted({ir.fmt(r.stmt[2][0]) for r in rs if r.stmt[2]}) or 'none', tgt)])
+    rep.floor('SHOOT.same-event', nse, 3)
     ev = typestate.reset_complete(rep, prog, 'bxdecay0::event', 'bxdecay0::event::reset', 'RESET.complete')
     pt = typestate.reset_complete(rep, prog, 'bxdecay0::particle', 'bxdecay0::particle::reset', 'RESET.complete')
     rep.rule('RESET.complete', 'reset() of event/particle/bbpars assigns every data member (write-set inclusion): a reused '
